@@ -471,6 +471,7 @@ func runWalletHist(c *Ctx) {
 		saved := c.Rng
 		c.Rng = NewRng(c.Seed ^ 0x5e771ed)
 		restoreNoticesSettledMelt(c)
+		twoMintsCounters(c)
 		c.Rng = saved
 	}
 	// every history draws from its own fork of the run's PRNG: history h of (seed, tier) can be replayed alone
@@ -722,6 +723,39 @@ func restoreNoticesSettledMelt(c *Ctx) {
 			c.Hist("rsm", "restored-"+outcome)
 		}()
 	}
+}
+
+// twoMintsCounters (seeded change C19-4, until now caught by a random history only): a wallet that trusts two mints
+// creates outputs at BOTH, twice each, then sends with change at both; the counter of each mint's keyset is looked up in
+// the wallet store among the keysets of ALL mints (whichever bucket comes first): no blinded message may be submitted
+// twice (the C19 transport monitor runs after every operation). Model-free.
+func twoMintsCounters(c *Ctx) {
+	hw, err := newHistWorld(c, "two-mints", []uint{0, 0}, 1)
+	if err != nil {
+		c.Disagree([]string{"C19"}, "setup-two-mints", err.Error(), "", nil)
+		return
+	}
+	defer hw.close()
+	b := hw.b
+	w := b.wallets[0]
+	m0, m1 := b.mints[0], b.mints[1]
+	if _, err := w.W.AddMint(m1.url); err != nil {
+		c.Hist("two-mints", "addmint-failed")
+		return
+	}
+	for round := 0; round < 2; round++ {
+		for _, m := range []*bMint{m0, m1} {
+			b.begin("mint", 0, fmt.Sprintf("mint w0 m%d 21 (round %d)", m.idx, round))
+			_, err := b.OpMint(w, m, 21)
+			hw.after(fmt.Sprintf("two-mints/mint-m%d/%s", m.idx, errTag(err)))
+		}
+	}
+	for _, m := range []*bMint{m0, m1} {
+		b.begin("send", 0, fmt.Sprintf("send w0 m%d 3 fees=false", m.idx))
+		_, err := b.OpSend(w, m, 3, false)
+		hw.after(fmt.Sprintf("two-mints/send-m%d/%s", m.idx, errTag(err)))
+	}
+	c.Hist("two-mints", "done")
 }
 
 // restoreContinueRestore: mint until the wallet has at least nOut signed outputs on the active keyset, restore,
